@@ -64,11 +64,11 @@ def run(t):
     nch_run = o["counters"].get("chunkhash_behaviours", 0)
     # re-read after abandoning
     o = _vh(run, vh, ["transport-reread"], "reread")
-    if o["counters"].get("types_reread", 0) < 20:
+    if o["counters"].get("types_reread", 0) < 20 and not run.violations:
         raise NoVerdict(f"reread covered only {o['counters']}")
     # read splits through the real signers
     o = _vh(run, vh, ["transport-splitsign"] + (["deep"] if deep else []), "splitsign", timeout=3000)
-    if o["counters"].get("types_split", 0) < 20:
+    if o["counters"].get("types_split", 0) < 20 and not run.violations:
         raise NoVerdict(f"splitsign covered only {o['counters'].get('types_split')} types")
     npat = o["extra"].get("patterns")
     # client loop
@@ -83,7 +83,7 @@ def run(t):
     for env, n in (({}, "2500" if deep else "260"), ({"VERIF_H2": "1"}, "2500" if deep else "160")):
         o = _vh(run, vh, ["transport-replay", n], cfg2 + (" h2" if env else " http/1.1"), env=env, files=g.beh, timeout=3000)
         protos.update(o["extra"].get("protocols") or {})
-        if o["counters"].get("remote_signed_ok", 0) == 0:
+        if o["counters"].get("remote_signed_ok", 0) == 0 and not run.violations:
             raise NoVerdict("no remote signature succeeded")
     if "HTTP/2.0" not in protos or "HTTP/1.1" not in protos:
         raise NoVerdict(f"protocol coverage {protos}")
@@ -92,7 +92,7 @@ def run(t):
     ok1 = o["counters"].get("stale_ok", 0)
     o = _vh(run, vh, ["transport-stale", "60" if deep else "10", str(2 << 20)], "stale h2", env={"VERIF_H2": "1"}, timeout=1200)
     ok2 = o["counters"].get("stale_ok", 0)
-    if ok1 + ok2 == 0:
+    if ok1 + ok2 == 0 and not run.violations:
         raise NoVerdict("stale schedule never ran to completion")
     run.cov["rule"] = (f"{nch_run} of {nch} complete write/flush behaviours of {cfg} on the real APK block hasher, each twice (exact multiples of the "
                        "256 KiB unit against the model's block list; every write off by -1/0/+1 byte against the canonical cut); all 22 types' "
